@@ -111,9 +111,11 @@ void verif_sched_done(void)
 	sched_id = -1;
 }
 
-/* free-running mode: an optional injected delay (a legal preemption) at one scheduling point of one worker,
-   VERIF_DELAY="point,rid,microseconds,one_in" */
-static int delay_point = -1, delay_rid, delay_us, delay_one_in = 1;
+/* free-running mode: optional injected delays (legal preemptions) at scheduling points of chosen workers,
+   VERIF_DELAY="point,rid,microseconds,one_in[,rank]" or several such specs separated by ';' (rid or rank -1: any) */
+#define MAXDELAY 8
+static struct { int point, rid, us, one_in, nid; } delays[MAXDELAY];
+static int n_delays;
 static _Atomic uint64_t delay_rng = 88172645463325252ULL;
 
 static int sched_requested;
@@ -133,11 +135,14 @@ void verif_yield(int point)
 		if(sched_id < 0)
 			verif_sched_register((int)rid);
 	}
-	if(point == delay_point && (int)rid == delay_rid) {
+	for(int d = 0; d < n_delays; ++d) {
+		extern nid_t nid;
+		if(point != delays[d].point || (delays[d].rid >= 0 && (int)rid != delays[d].rid) || (delays[d].nid >= 0 && (int)nid != delays[d].nid))
+			continue;
 		uint64_t x = atomic_fetch_add(&delay_rng, 0x9E3779B97F4A7C15ULL);
 		x ^= x >> 29; x *= 0xBF58476D1CE4E5B9ULL; x ^= x >> 32;
-		if(x % (uint64_t)delay_one_in == 0)
-			usleep((useconds_t)delay_us);
+		if(x % (uint64_t)delays[d].one_in == 0)
+			usleep((useconds_t)delays[d].us);
 	}
 	if(!sched_on || sched_id < 0)
 		return;
@@ -232,8 +237,15 @@ void verif_trace_setup(const char *path, uint64_t mask, unsigned watchdog_s)
 	if(sc && sscanf(sc, "%" SCNu64 ",%" SCNu64, &sched_req_seed, &sched_req_stride) == 2)
 		sched_requested = 1;
 	const char *dl = getenv("VERIF_DELAY");
-	if(dl)
-		sscanf(dl, "%d,%d,%d,%d", &delay_point, &delay_rid, &delay_us, &delay_one_in);
+	while(dl && *dl && n_delays < MAXDELAY) {
+		delays[n_delays].nid = -1;
+		delays[n_delays].one_in = 1;
+		if(sscanf(dl, "%d,%d,%d,%d,%d", &delays[n_delays].point, &delays[n_delays].rid, &delays[n_delays].us, &delays[n_delays].one_in,
+		       &delays[n_delays].nid) >= 3 && delays[n_delays].one_in > 0)
+			++n_delays;
+		dl = strchr(dl, ';');
+		if(dl) ++dl;
+	}
 	if(watchdog_s) {
 		wd_seconds = watchdog_s;
 		pthread_t t;
